@@ -126,6 +126,15 @@ def configurations(tier):
                 out.append({'decoder': dec, 'code': cname, 'size': list(size),
                             'code_def': vs[1][0] if cd else None, 'code_def_kw': vs[1][1] if cd else None,
                             'noise': 'Zbias', 'p': 0.1, 'dec_kwargs': dict(kw)})
+    # ... and every such variant at the ends of the rate axis with pure channels
+    for dec, kw in variants:
+        for nz in ('Z', 'Y', 'X', 'depol'):
+            for p in (0.0, 1.0):
+                for cname, size in (('Toric2DCode', (3, 4)), ('RotatedPlanar2DCode', (3, 3))):
+                    if dec == 'MemoryBeliefPropagationDecoder' and codes.qubit_count(cname, size) > 30:
+                        continue
+                    out.append({'decoder': dec, 'code': cname, 'size': list(size), 'noise': nz, 'p': p,
+                                'dec_kwargs': dict(kw), '_few': 6})
     for rounds, seed in ((1, 3), (4, 7)):
         out.append({'decoder': 'RotatedSweepMatchDecoder', 'code': 'RotatedPlanar3DCode', 'size': [3, 3, 3],
                     'noise': 'depol', 'p': 0.05, 'dec_kwargs': {'max_rounds': rounds}})
